@@ -97,6 +97,10 @@ func compareSeq(r *run, prop, class, f string, want, got []vegeta.Result) bool {
 			explain := "other"
 			if nw := simcommon.NormalizeCRLF(want[i]); simcommon.HasCR(&want[i]) && simcommon.DiffResults(&nw, &got[i]) == "" {
 				explain = "crlf-normalised" // the only difference: "\r\n" in a text field came back as "\n"
+			} else if tw := simcommon.MapHeaderValues(want[i], simcommon.TrimBlanks); f == "csv" && simcommon.DiffResults(&tw, &got[i]) == "" {
+				explain = "header-value-blanks-trimmed" // the only difference: blanks at the ends of a header value are gone
+			} else if uw := simcommon.MapHeaderValues(want[i], simcommon.ValidUTF8); f == "json" && simcommon.DiffResults(&uw, &got[i]) == "" {
+				explain = "header-value-non-utf8-replaced" // the only difference: bytes of a header value that are not UTF-8 became U+FFFD
 			}
 			r.fail(prop, class, map[string]string{"fmt": f, "explain": explain}, "%s: record %d of %d differs: %s", f, i, len(want), d)
 			return false
@@ -117,8 +121,11 @@ func runCodec(t *simrt.Tape, keep bool) simrt.Outcome {
 	// carriage returns in text fields only in one run out of ten: the CSV format cannot carry CRLF
 	// (known finding F-C07-csv-crlf) and that must not shadow everything else
 	cr := t.Prob(1, 10)
-	rs := genResults(r, n, simcommon.GenOpts{NoCR: !cr})
-	r.log.Addf("records %d cr=%v", n, cr)
+	// likewise header values that the CSV and JSON layouts cannot carry (blanks at the ends, bytes that are not
+	// UTF-8; known findings), in other runs than the carriage returns so that each difference stands alone
+	odd := !cr && t.Prob(1, 10)
+	rs := genResults(r, n, simcommon.GenOpts{NoCR: !cr, OddHeaders: odd})
+	r.log.Addf("records %d cr=%v odd-header-values=%v", n, cr, odd)
 	writesPerEncode := map[string]int{}
 	for _, f := range formats {
 		file, _, ok := encodeAll(r, "C07", f, rs)
